@@ -337,7 +337,7 @@ def run(ctx):
     t0 = time.time()
     paths = ctx.gen_paths("ws", "Gen_WsReceiver", "Gen_WsReceiverValid.cfg", overrides={"L": 3})
     ctx.replay(expand_recv(paths, ctx.seed, ctx.pick(1, 2)), recv_replayer, label="s2c")
-    sims = ctx.sim_paths("ws", "Gen_WsReceiver", "Gen_WsReceiverValid.cfg", num=ctx.pick(60, 2000), depth=12,
+    sims = ctx.sim_paths("ws", "Gen_WsReceiver", "Gen_WsReceiverValid.cfg", num=ctx.pick(60, 1000), depth=12,
                          overrides={"L": 12, "PieceKinds": '{"zero", "one", "half", "rest1"}', "CtlLens": "{0, 5, 125}"})
     ctx.replay(expand_recv(sims, ctx.seed, 2), recv_replayer, label="s2c")
     ctx._phase("s2c-recv", t0)
@@ -345,9 +345,9 @@ def run(ctx):
     t0 = time.time()
     cc = cat(_CHAN_CAT)
     os.environ["WS_CATALOG"] = cc.write(os.path.join(ctx.scratch, "catalog_chan.ndjson"))
-    # quick: 3 message classes, L = 3; thorough: all 12 classes at L = 3 (2 variants each) and the 3 classes at L = 4
+    # quick: 3 message classes, L = 3; thorough: all 12 classes at L = 3 and the 3 classes at L = 4
     paths = ctx.gen_paths("ws", "Gen_WsChannel", "Gen_WsChannel.cfg", overrides={"L": 3, "MaxSend": 2})
-    ctx.replay(expand_chan(paths, ctx.seed, ctx.pick(1, 2)), chan_replayer, label="s2c")
+    ctx.replay(expand_chan(paths, ctx.seed, 1), chan_replayer, label="s2c")
     if not ctx.quick:
         _CHAN_CAT = "chan_quick"
         os.environ["WS_CATALOG"] = cat(_CHAN_CAT).write(os.path.join(ctx.scratch, "catalog_chan4.ndjson"))
@@ -358,7 +358,7 @@ def run(ctx):
     ctx.cov["exhaustive"] = True
     # 5. code -> spec: random sessions on the real pair, wire frames and deliveries judged by TLC
     t0 = time.time()
-    n = ctx.pick(100, 3000)
+    n = ctx.pick(100, 2000)
     traces = framework.pool_map(random_session, [(i + 1, ctx.seed * 1000003 + i, ctx.pick(14, 30)) for i in range(n)])
     ctx.validate("ws", "Trace_WsChannel", "Trace_WsChannel.cfg", traces, sig_fn=session_sig)
     ctx._phase("c2s", t0)
